@@ -89,17 +89,30 @@ def handle(c):
     kinds = {}
     errs = {}
     dirty = True
+    tw_off = False
     n = spec['comps'][0]['n']
     for op in c['seq']:
         k = op['op']
         b = snap(p)
         stats['calls'] += 1
         if k == 'run':
+            ep = et = None
             try:
                 p.run_model()
+            except Exception as e:   # noqa
+                ep = e
+            try:
                 t.run_model()
             except Exception as e:   # noqa
-                bad('run_model failed: %r' % (e,))
+                et = e
+            if ep is not None or et is not None:
+                if ep is None or et is None or type(ep) is not type(et):
+                    bad('run_model %s in the problem that made the queries and %s in the twin that made none' % (
+                        'raised %r' % (ep,) if ep is not None else 'returned',
+                        'raised %r' % (et,) if et is not None else 'returned'))
+                else:
+                    # the generated model cannot be evaluated here (e.g. singular Newton system): not a scenario
+                    stats['run_raises_in_both'] = stats.get('run_raises_in_both', 0) + 1
                 break
             a = snap(p)
             ta = snap(t)
@@ -139,7 +152,11 @@ def handle(c):
         j0 = j1 = None
         # derivative values are compared only at a clean state (the model has been run since the last set_val):
         # approximated totals at a state whose outputs are not the model's response to its inputs are not defined
-        tw = op.get('tw') if not dirty else None
+        tw = op.get('tw') if not (dirty or tw_off) else None
+        if k == 'coloring' and '' in spec.get('approx_groups', {}):
+            # FINDINGS.md observation 7 (unresolved): after an explicit total-coloring call on a model whose totals
+            # are approximated, derivative values are not compared any more in this scenario
+            tw_off = True
         if tw:
             try:
                 j0 = p.compute_totals(of=tw[0], wrt=tw[1], return_format='flat_dict')
@@ -171,10 +188,13 @@ def handle(c):
                                 [repr(float(a1[i])) for i in d], d))
                         break
         a = snap(p)
-        if err is not None and (a[0].tobytes() != b[0].tobytes() or a[1].tobytes() != b[1].tobytes()):
-            # the call did not complete: the property speaks about calls that return.  The state is no longer
-            # the twin's, so the scenario ends here (counted, and described in FINDINGS.md observation 2)
-            stats['raised_and_left_state_perturbed'] = stats.get('raised_and_left_state_perturbed', 0) + 1
+        if err is not None and 'OMInvalidCheckDerivativesOptionsWarning' not in type(err).__name__:
+            # the call did not complete: the property speaks about calls that return.  What an interrupted query
+            # leaves behind (a perturbation in the vectors, complex-step mode) is FINDINGS.md observation 4; the
+            # scenario ends here (counted)
+            if a[0].tobytes() != b[0].tobytes() or a[1].tobytes() != b[1].tobytes():
+                stats['raised_and_left_state_perturbed'] = stats.get('raised_and_left_state_perturbed', 0) + 1
+            stats['ended_by_raising_query'] = stats.get('ended_by_raising_query', 0) + 1
             break
         for lab, i in (('inputs', 0), ('outputs', 1)):
             if a[i].tobytes() != b[i].tobytes():
@@ -188,7 +208,7 @@ def handle(c):
     if msgs:
         m = msgs[0]
         sig = 'C31:' + ('run-vs-twin' if 'twin' in m else 'run-twice' if 'twice' in m else
-                        'run-fails' if m.startswith('run_model failed') else
+                        'run-fails' if m.startswith('run_model raised') or m.startswith('run_model returned') else
                         'hidden-state-totals' if m.startswith('hidden state') else 'query-' + m.split('(')[0])
     stats['query_kinds'] = kinds
     stats['errors'] = sorted(errs)[:5]
